@@ -242,7 +242,7 @@ fn gen_case(id: u64, r: &mut Rng, out: &mut Out) -> (String, Vec<String>) {
         13 => {
             // one window at a time; PBKDF parameter bounds of `Pase::open_comm_window`
             let enh_pw = if dev_pw == 11111112 { 11111113 } else { 11111112 };
-            let v = round % 8;
+            let v = round % 12;
             out.stat(&format!("single_window_variant_{}", v), 1);
             match v {
                 0 => {
@@ -299,13 +299,66 @@ fn gen_case(id: u64, r: &mut Rng, out: &mut Out) -> (String, Vec<String>) {
                     ops.push(format!("openenh pw={} t={} sl=16 it={} disc=87", enh_pw, win, it));
                     handshake(&mut ops, 1, enh_pw);
                 }
-                _ => {
+                7 => {
                     // an enhanced window for the device's own passcode: other salt, so other verifier
                     ops.push(format!("openenh pw={} t={} sl=32 it=2000 disc=88", dev_pw, win));
                     handshake(&mut ops, 1, dev_pw);
                     ops.push("revoke".into());
                     ops.push(format!("open t={}", win));
                     handshake(&mut ops, 2, dev_pw);
+                }
+                8 => {
+                    // the command OpenCommissioningWindow through the real cluster handler, legal PBKDF parameters
+                    let sl = r.range(16, 32);
+                    let it = if r.chance(1, 8) { *r.pick(&[99_999u64, 100_000]) } else { *r.pick(&[1000u64, 1001, 2000, 7777]) };
+                    out.stat(&format!("cmd_salt_{}", sl), 1);
+                    out.stat(&format!("cmd_iter_{}", it), 1);
+                    ops.push(format!("cmdopen pw={} t={} sl={} it={} disc={}", enh_pw, win, sl, it, r.below(4096)));
+                    ops.push(format!("cmdbasic t={}", win));
+                    ops.push(format!("cmdopen pw={} t={} sl=16 it=1000 disc=1", enh_pw + 1, win));
+                    handshake(&mut ops, 1, enh_pw);
+                    handshake(&mut ops, 2, dev_pw);
+                }
+                9 => {
+                    // ... illegal ones: PAKEParameterError, no window
+                    for it in [0u64, 999, 100_001, 4_000_000_000] {
+                        ops.push(format!("cmdopen pw={} t={} sl=16 it={} disc=2", enh_pw, win, it));
+                    }
+                    for sl in [0u64, 15, 33, 64] {
+                        ops.push(format!("cmdopen pw={} t={} sl={} it=1000 disc=2", enh_pw, win, sl));
+                    }
+                    for vl in [0u64, 96, 98, 130] {
+                        ops.push(format!("cmdopen pw={} t={} sl=16 it=1000 disc=2 vl={}", enh_pw, win, vl));
+                    }
+                    ops.push("pbkdf i=1".into());
+                    ops.push(format!("cmdopen pw={} t={} sl={} it={} disc=2", enh_pw, win, r.pick(&[16u64, 32]), r.pick(&[1000u64, 1001])));
+                    handshake(&mut ops, 2, enh_pw);
+                }
+                10 => {
+                    // an expired window nobody polled blocks the API but not the commands (they run the expiry check)
+                    ops.push(format!("openenh pw={} t=180 sl=20 it=1000 disc=82", enh_pw));
+                    ops.push("tick ms=180500".into());
+                    ops.push(format!("open t={}", win));
+                    if r.chance(1, 2) {
+                        ops.push(format!("cmdbasic t={}", win));
+                        handshake(&mut ops, 1, dev_pw);
+                    } else {
+                        ops.push(format!("cmdopen pw={} t={} sl=16 it=1000 disc=3", enh_pw + 1, win));
+                        handshake(&mut ops, 1, enh_pw + 1);
+                    }
+                }
+                _ => {
+                    // commissioning timeout bounds and the single-window rule of the commands
+                    ops.push("cmdbasic t=179".into());
+                    ops.push("cmdbasic t=901".into());
+                    ops.push(format!("cmdopen pw={} t=179 sl=16 it=1000 disc=4", enh_pw));
+                    ops.push(format!("cmdbasic t={}", win));
+                    ops.push(format!("cmdopen pw={} t={} sl=16 it=1000 disc=4", enh_pw, win));
+                    ops.push(format!("cmdbasic t={}", win));
+                    ops.push("revoke".into());
+                    ops.push(format!("cmdopen pw={} t={} sl=16 it=1000 disc=4", enh_pw, win));
+                    ops.push(format!("cmdbasic t={}", win));
+                    handshake(&mut ops, 1, enh_pw);
                 }
             }
         }
